@@ -83,6 +83,8 @@ class Ctx:
         self.valid_q: list[tuple[dict, dict]] = []     # (request, meta)
         self.expand_q: list[tuple[dict, dict]] = []
         self.op_q: list = []
+        self.bound_q: list[tuple[dict, dict]] = []      # expand_bound requests (fuzzStartF with the proved bound)
+        self.primed_q: dict[int, dict] = {}             # grammar key -> {"req":…, "fresh": bool, "spec":…}
         self.corr_cases = 0
         self.corr_fail: list[dict] = []
 
@@ -147,6 +149,46 @@ class Ctx:
                                        "start": q["start"], "budget": q["budget"], "path": q["path"], "tape": q["tape"],
                                        "impl": m["want"], "model": a["tree"], "rest": a["rest"]})
         self.expand_q.clear()
+
+    # ---- termination: replay with the recursion bound of C01_expand_terminates_partial
+    def queue_bound(self, gkey: int, fg: dict, fresh: bool, req: dict, want: Optional[list], meta: dict) -> None:
+        if gkey not in self.primed_q:
+            self.primed_q[gkey] = {"req": {"op": "primed", "grammar": fg}, "fresh": fresh, "spec": meta.get("spec")}
+        m = dict(meta)
+        m["want"], m["gkey"] = want, gkey
+        self.bound_q.append((req, m))
+        if len(self.bound_q) >= 800:
+            self.flush_bound()
+
+    def flush_bound(self) -> None:
+        if not self.bound_q:
+            return
+        keys = list(self.primed_q)
+        primed = dict(zip(keys, (a["primed"] for a in driver_ask("drv_fuzz", [self.primed_q[k]["req"] for k in keys],
+                                                                timeout=900))))
+        for k in keys:
+            info = self.primed_q[k]
+            if "done" in info:
+                continue
+            info["done"] = True
+            # a grammar that went through the front end once carries exactly what the model's prime() computes
+            if info["fresh"]:
+                self.corr("primed", primed[k], {"spec": info["spec"], "what": "primedB false on a freshly parsed grammar"})
+            else:
+                self.run.count("primed:" + str(primed[k]).lower() + ":not_fresh")
+        answers = driver_ask("drv_fuzz", [q for q, _ in self.bound_q], timeout=900)
+        for (q, m), a in zip(self.bound_q, answers):
+            if not primed[m["gkey"]]:
+                self.run.count("bound_replay:unprimed_grammar")
+                continue
+            self.corr_cases += 1
+            self.run.count("bound_replay:" + a["status"])
+            self.run.count("bound_fuel:" + ("<=100" if a["fuel"] <= 100 else "<=1000" if a["fuel"] <= 1000 else ">1000"))
+            if a["status"] != "ok" or a["tree"] != m["want"] or a["rest"] != 0:
+                self.corr_fail.append({"case": "expand_bound", "origin": m["origin"], "spec": m.get("spec"),
+                                       "start": q["start"], "budget": q["budget"], "path": q["path"], "tape": q["tape"],
+                                       "impl": m["want"], "model": a["tree"], "status": a["status"], "fuel": a["fuel"]})
+        self.bound_q.clear()
 
     def ask_later(self, req: dict, handler) -> None:
         self.op_q.append((req, handler))
@@ -262,8 +304,9 @@ def parse_generated(run: Run, rng, preset: str, feats=None):
     return info, grammar, constraints
 
 
-def record_calls(ctx: Ctx, rec: fio.Recorder, spec: str, origin: str, fg_cache: dict) -> None:
-    """queue tape replays for the Grammar.fuzz calls a Recorder saw"""
+def record_calls(ctx: Ctx, rec: fio.Recorder, spec: str, origin: str, fg_cache: dict, fresh: bool = True) -> None:
+    """queue tape replays for the Grammar.fuzz calls a Recorder saw; `fresh`: the grammar went through the front
+    end exactly once (one prime() on freshly constructed nodes)"""
     for call in rec.calls:
         if call.tree is None:
             ctx.run.count("fuzz_raised:" + str(call.error))
@@ -284,7 +327,12 @@ def record_calls(ctx: Ctx, rec: fio.Recorder, spec: str, origin: str, fg_cache: 
             ctx.run.count("not_modelled:" + str(e)[:40])
             continue
         try:
-            ctx.queue_expand(fio.expand_request(call, fg), want, {"origin": origin, "spec": spec})
+            req = fio.expand_request(call, fg)
+            ctx.queue_expand(req, want, {"origin": origin, "spec": spec})
+            if not fg["gens"]:
+                breq = {k: v for k, v in req.items() if k != "fuel"}
+                breq["op"] = "expand_bound"
+                ctx.queue_bound(key, breq["grammar"], fresh, breq, want, {"origin": origin, "spec": spec})
         except NotModelled as e:
             ctx.run.count("not_modelled:" + str(e)[:40])
     rec.calls.clear()
@@ -330,7 +378,142 @@ def stage_fuzz(ctx: Ctx, rng, n_grammars: int, per_grammar: int) -> None:
         ctx.queue_valid(gj, regexes, tjs, {"origin": "fuzz" + (":generator" if info.generators else ""),
                                            "spec": info.text, "relaxed": sorted(relaxed)})
     ctx.flush_expand()
+    ctx.flush_bound()
     ctx.flush_valid()
+
+
+# ------------------------------------------------------------------------------------------------
+# stage P: Grammar.prime() — every node's distance_to_completion, model vs real, exact (inf included)
+# ------------------------------------------------------------------------------------------------
+
+PRIME_SPECS = [
+    # (spec, note)
+    '<start> ::= <a>\n<a> ::= <b>*\n<b> ::= <a> "x"\n',                     # C01_prime_not_fixpoint (Star's 0.0 is read)
+    '<a> ::= "x" "y" "z"\n<start> ::= <a> | <b>\n<b> ::= <c>\n<c> ::= "q"\n',   # Alternative fixed before its best branch
+    '<start> ::= <a>\n<a> ::= <a>*\n',                                       # completable only through the initial 0.0
+    '<start> ::= <a>\n<a> ::= ("(" <a> ")")*\n',
+    '<start> ::= <x>{3} <y>? (<x> | "k"){0,2}\n<x> ::= <x> "1" | "0"\n<y> ::= <y>? "y"\n',
+    '<start> ::= ((<a>+){2}){1,} b"\\x00"\n<a> ::= 0 1 1 0 | b"\\xff"{0,2}\n',
+    '<start> ::= (<p> | "a") | <q>?\n<p> ::= <q>* "p"\n<q> ::= "q" <p>\n',
+]
+
+# grammars with a node that can never be completed: the real prime() does not return
+PRIME_HANG_SPECS = [
+    '<start> ::= "a" <b>*\n<b> ::= <b> "x"\n',                                # C01_prime_hangs_on_unproductive_symbol
+    '<start> ::= "a" | <b>\n<b> ::= <b> "x"\n',
+    '<start> ::= "a"\n<b> ::= <b> "x"\n',
+    '<start> ::= "a" <b>{0,2}\n<b> ::= "(" <b> ")"\n',
+    '<start> ::= <b>? "a"\n<b> ::= <c>\n<c> ::= <b> | <c> "z"\n',
+]
+
+HANG_WRAPPERS = ['<start> ::= <gstart> <zz>*\n', '<start> ::= <gstart> | <zz>\n', '<start> ::= <zz>? <gstart>\n',
+                 '<start> ::= <gstart>\n']
+
+
+def _prime_cases(ctx: Ctx, calls: list, spec: str, kind: str, hung: bool) -> None:
+    """compare every recorded prime() call with the model, from the recorded state (and from the model's own
+    constructor state when the recorded one is the constructors')"""
+    run = ctx.run
+    for call in calls:
+        if call.not_modelled is not None:
+            run.count("not_modelled:" + call.not_modelled[:40])
+            continue
+        n_nodes = sum(len(r) for r in call.before)
+        if call.after is not None:
+            want_status = "done"
+        elif call.error in (None, "Timeout", "PrimeHang"):
+            want_status = "fuel" if (hung or call.error == "PrimeHang") else None
+        else:
+            want_status = "raised"
+        if want_status is None:
+            continue
+        fresh = call.before == call.fresh
+        label = kind + (":fresh" if fresh else ":stale")
+        before, after, ir = call.before, call.after, call.ir
+
+        def check(a, label=label, before=before, after=after, ir=ir, want_status=want_status, from_model_init=False):
+            ok = a["status"] == want_status and (after is None or a["dist"] == after)
+            ctx.corr("prime:" + label + (":model_init" if from_model_init else ""), ok,
+                     {"spec": spec, "before": before, "impl": after, "impl_status": want_status,
+                      "model": a["dist"], "model_status": a["status"], "bound": a["bound"]})
+        ctx.ask_later({"op": "prime", "grammar": ir, "init": before}, check)
+        if fresh:
+            ctx.ask_later({"op": "prime", "grammar": ir, "init": None},
+                          lambda a, check=check: check(a, from_model_init=True))
+        if call.after is not None and call.bound is not None:
+            # the real loop returned: within the iteration bound the model proves sufficient
+            ctx.corr("prime:iterations_within_bound", call.iterations <= call.bound,
+                     {"spec": spec, "iterations": call.iterations, "bound": call.bound})
+        run.count("prime_nodes:" + ("1-5" if n_nodes <= 5 else "6-20" if n_nodes <= 20 else "21-60" if n_nodes <= 60 else "61+"))
+        if after is not None:
+            flat = [d for row in after for d in row]
+            run.count("prime_result:" + ("has_inf" if None in flat else "all_finite"))
+
+
+def stage_prime(ctx: Ctx, rng, n_grammars: int) -> None:
+    from fandango.language.grammar.nodes.terminal import TerminalNode
+    run = ctx.run
+    presets = list(specgen.feature_presets())
+    specs: list[tuple[str, str]] = [(s, "corpus") for s in PRIME_SPECS] + [(s, "hang") for s in PRIME_HANG_SPECS]
+    for gi in range(n_grammars):
+        info = specgen.gen_spec_info(rng, specgen.feature_presets()[presets[gi % len(presets)]])
+        if info.generators:
+            continue
+        if gi % 6 == 5:
+            w = HANG_WRAPPERS[(gi // 6) % len(HANG_WRAPPERS)]
+            text = w + info.text.replace("<start>", "<gstart>") + rng.choice(
+                ['<zz> ::= <zz> "q"\n', '<zz> ::= "(" <zz> ")" | <zz> <zz>\n', '<zz> ::= <zy>\n<zy> ::= "k" <zz>\n'])
+            specs.append((text, "hang"))
+        else:
+            specs.append((info.text, "generated"))
+    for spec, kind in specs:
+        hung = False
+        grammar = None
+        with fio.PrimeRecorder() as rec:
+            try:
+                with limit(4):
+                    grammar, _c = gio.parse_spec(spec)
+            except fio.PrimeHang:
+                hung = True
+                run.count("prime:real_loop_exceeded_bound")
+            except Timeout:
+                # where was it?  only a prime() call that did not come back counts as a hang of prime()
+                hung = bool(rec.calls) and rec.calls[-1].after is None and rec.calls[-1].error in (None, "Timeout")
+                run.count("prime:parse_timeout" + (":in_prime" if hung else ":elsewhere"))
+            except Exception as e:  # noqa
+                run.count("prime:spec_rejected:" + type(e).__name__)
+        if kind == "hang" and not hung and grammar is not None:
+            run.count("prime:hang_spec_returned")
+        _prime_cases(ctx, rec.calls, spec, kind, hung)
+        if grammar is None:
+            continue
+        # a second prime() on the primed objects, and one from a mixed state (some nodes back at their
+        # constructor values): prime() starts from whatever the objects carry
+        try:
+            rows = fio.grammar_nodes(grammar)
+            fresh = fio.fresh_snapshot(grammar)
+        except NotModelled as e:
+            run.count("not_modelled:" + str(e)[:40])
+            continue
+        for variant in ("again", "mixed"):
+            if variant == "mixed":
+                for row, frow in zip(rows, fresh):
+                    for n, f in zip(row, frow):
+                        if not isinstance(n, TerminalNode) and rng.random() < 0.5:
+                            n.distance_to_completion = float("inf") if f is None else float(f)
+            with fio.PrimeRecorder() as rec2:
+                try:
+                    with limit(4):
+                        grammar.prime()
+                    h2 = False
+                except (Timeout, fio.PrimeHang):
+                    h2 = True
+                    run.count("prime:reprime_hang")
+                except Exception as e:  # noqa
+                    h2 = False
+                    run.count("prime:reprime_raised:" + type(e).__name__)
+            _prime_cases(ctx, rec2.calls, spec, variant, h2)
+    ctx.flush_ops()
 
 
 # ------------------------------------------------------------------------------------------------
@@ -636,6 +819,103 @@ def op_collapse(ctx: Ctx, rng, info, grammar, gj, regexes, trees: list) -> None:
                                           "settings": {"word": repr(word)}})
 
 
+def _drive(gen):
+    """run a generator to its return value"""
+    try:
+        while True:
+            next(gen)
+    except StopIteration as e:
+        return e.value
+
+
+def op_evo(ctx: Ctx, rng, info, grammar, gj, regexes, trees: list, rounds: int) -> None:
+    """direct calls of SimpleSubtreeCrossover.crossover / SimpleMutation.mutate / PopulationManager.fix_individual on
+    fuzzed trees (read-only marks, synthetic failing trees and repetition suggestions), recorded and replayed on
+    Model/Evo.lean by record_evo; results of crossover / mutate are judged by the verified checker"""
+    from fandango.constraints.failing_tree import (ApplyAllSuggestions, ApplyFirstSuggestion, FailingTree,
+                                                   NopSuggestion)
+    from fandango.constraints.repetition_bounds import RepetitionBoundsSuggestion
+    from fandango.evolution.crossover import SimpleSubtreeCrossover
+    from fandango.evolution.mutation import SimpleMutation
+    from fandango.evolution.population import PopulationManager
+    run = ctx.run
+    if grammar.generators or not trees:
+        return
+    outs: list = []
+    with fio.Recorder(evo=True) as rec:
+        for _ in range(rounds):
+            # ---- crossover
+            t1, t2 = rng.choice(trees).deepcopy(copy_parent=False), rng.choice(trees).deepcopy(copy_parent=False)
+            for t in (t1, t2):
+                if rng.random() < 0.3:
+                    rng.choice(all_nodes(t)).set_all_read_only(True)
+            random.seed(rng.getrandbits(32))
+            try:
+                with limit(5):
+                    res = SimpleSubtreeCrossover().crossover(grammar, t1, t2)
+                if res is not None:
+                    outs.extend([("operator:crossover", res[0]), ("operator:crossover", res[1])])
+            except Exception as e:  # noqa
+                run.count("crossover_raised:" + type(e).__name__)
+            # ---- mutate
+            ind = rng.choice(trees).deepcopy(copy_parent=False)
+            nodes = all_nodes(ind)
+            if rng.random() < 0.3:
+                rng.choice(nodes).set_all_read_only(True)
+            failing = [FailingTree(rng.choice(nodes), None) for _ in range(rng.choice([0, 1, 1, 2, 3]))]
+
+            def evaluate(_ind, failing=failing):
+                return 0.0, failing, NopSuggestion()
+                yield  # noqa  (a generator, like Evaluator.evaluate_individual)
+
+            random.seed(rng.getrandbits(32))
+            try:
+                with limit(5):
+                    m = _drive(SimpleMutation().mutate(ind, grammar, evaluate, rng.choice([5, 20, 50])))
+                outs.append(("operator:mutate", m))
+            except (Timeout, RecursionError):
+                run.count("mutate_timeout")
+            except Exception as e:  # noqa
+                run.count("mutate_raised:" + type(e).__name__)
+            # ---- fix_individual with a repetition suggestion built on the tree's own tags
+            ind = rng.choice(trees).deepcopy(copy_parent=False)
+            cands = [(n, tag) for n in all_nodes(ind) if n.parent is not None and n.symbol.is_non_terminal
+                     for tag in n.origin_repetitions]
+            suggs: list = [NopSuggestion()]
+            if cands:
+                node, (rep_id, it, _r) = rng.choice(cands)
+                rep_node = find_rep_node(grammar, rep_id)
+                same = [c for c in node.parent.children if any(x[0] == rep_id and x[1] == it for x in c.origin_repetitions)]
+                reps = sorted({x[2] for c in same for x in c.origin_repetitions if x[0] == rep_id and x[1] == it})
+                if rep_node is not None:
+                    others = all_nodes(ind)
+                    sg = RepetitionBoundsSuggestion(
+                        ending_rep_tree=same[-1] if rng.random() < 0.7 else node,
+                        starting_rep_value=rng.choice(others), ending_rep_value=rng.choice(others),
+                        bound_len=len(reps), goal_len=rng.randint(0, len(reps) + 2), iter_id=it,
+                        repetition_id=rep_id, repetition_node=rep_node)
+                    sg.allow_repetition_full_delete = rng.random() < 0.5
+                    suggs.append(sg)
+            rng.shuffle(suggs)
+            top = rng.choice([ApplyAllSuggestions(suggs), ApplyFirstSuggestion(suggs), suggs[-1], None])
+            random.seed(rng.getrandbits(32))
+            try:
+                with limit(5):
+                    PopulationManager(grammar, "<start>", False).fix_individual(ind, top)
+            except (Timeout, RecursionError):
+                run.count("fix_timeout")
+            except Exception as e:  # noqa
+                run.count("fix_raised:" + type(e).__name__)
+        record_evo(ctx, rec, info.text)
+    tjs = []
+    for origin, t in outs:
+        try:
+            ctx.queue_valid(gj, regexes, [gio.tree_to_json(t)], {"origin": origin, "spec": info.text},
+                            [fio.atree_json(t)])
+        except NotModelled as e:
+            run.count("not_modelled:" + str(e)[:40])
+
+
 OPS_SPECS = [
     # iterations with several children, ending in a terminal / a nonterminal / nested repetitions
     '<start> ::= "[" (<a> ","){1,4} "]"\n<a> ::= "a" | "b" <a>?\n',
@@ -674,6 +954,7 @@ def stage_ops(ctx: Ctx, rng, n_grammars: int, per_grammar: int) -> None:
             op_split(ctx, rng, info, trees)
         if info.mode in ("text", "bytes") and gi % 2 == 0:
             op_collapse(ctx, rng, info, grammar, gj, regexes, trees)
+        op_evo(ctx, rng, info, grammar, gj, regexes, trees, per_grammar * (2 if gi < len(OPS_SPECS) else 1))
     ctx.flush_ops()
     ctx.flush_valid()
 
@@ -766,7 +1047,7 @@ def run_evolution(spec: str, seed: int, settings: dict, generations: int, want: 
 
     solutions, err = [], None
     Evaluator.evaluate_individual = evaluate_individual
-    rec = fio.Recorder()
+    rec = fio.Recorder(evo=True)
     try:
         # the production exception path prints every swallowed exception to stderr: keep the log readable
         with rec, contextlib.redirect_stderr(io.StringIO()):
@@ -786,6 +1067,118 @@ def run_evolution(spec: str, seed: int, settings: dict, generations: int, want: 
     finally:
         Evaluator.evaluate_individual = o_eval
     return grammar, constraints, list(seen.values()), solutions, rec, err
+
+
+def record_evo(ctx: Ctx, rec: fio.Recorder, spec: str) -> None:
+    """operator-level tape replay: every SimpleSubtreeCrossover.crossover / SimpleMutation.mutate /
+    PopulationManager.fix_individual call of the run against `crossover` / `mutate` / `fixIndividual` of
+    Model/Evo.lean on the same inputs and the same recorded draws"""
+    run = ctx.run
+    fgs: dict[int, Any] = {}
+    for ev in rec.evo_calls:
+        op = ev.op
+        if ev.error is not None:
+            run.count(f"evo_raised:{op}:{ev.error}")
+            continue
+        if ev.not_modelled is not None:
+            run.count(f"evo_not_modelled:{op}:{ev.not_modelled[:40]}")
+            continue
+        g = ev.grammar
+        if g.generators:
+            run.count(f"evo_not_modelled:{op}:generators")
+            continue
+        if id(g) not in fgs:
+            try:
+                fgs[id(g)] = fio.fgrammar_json(g, regexes=rec.table_for(g))[0]
+            except NotModelled as e:
+                fgs[id(g)] = None
+                run.count("not_modelled:" + str(e)[:40])
+        fg = fgs[id(g)]
+        if fg is None:
+            continue
+        try:
+            if op == "crossover":
+                fuel = 100 + 4 * (_asize(ev.tree) + _asize(ev.tree2))
+                if ev.out is None:
+                    want = {"status": "nothing", "c1": None, "c2": None}
+                    req = {"op": "crossover", "p1": ev.tree, "p2": ev.tree2, "sym": "", "k1": 0, "k2": 0, "fuel": fuel}
+                    if ev.draws:
+                        raise NotModelled("crossover returned None after drawing")
+                else:
+                    if len(ev.draws) != 3 or any(d[0] is None for d in ev.draws):
+                        raise NotModelled("crossover: unexpected draws")
+                    want = {"status": "ok", "c1": ev.out[0], "c2": ev.out[1]}
+                    req = {"op": "crossover", "p1": ev.tree, "p2": ev.tree2, "sym": ev.draws[0][1].name(),
+                           "k1": ev.draws[1][0], "k2": ev.draws[2][0], "fuel": fuel}
+                run.count("crossover:" + want["status"])
+                ctx.ask_later(req, lambda a, want=want, req=req: ctx.corr(
+                    "evo:crossover", a == want, {"spec": spec, "req": req, "impl": want, "model": a}))
+                ctx.corr("evo:crossover_mutates_input", ev.inputs_after == [ev.tree, ev.tree2], {"spec": spec})
+            elif op == "mutate":
+                if ev.failing is None:
+                    run.count("evo_not_modelled:mutate:no_failing_trees_seen")
+                    continue
+                fuel = 400 + 16 * _size(ev.out) + 4 * _asize(ev.tree)
+                base = {"op": "mutate", "grammar": fg, "tree": ev.tree, "failing": ev.failing,
+                        "max_nodes": ev.max_nodes, "fuel": fuel}
+                if ev.same:
+                    if ev.draws:
+                        raise NotModelled("mutate returned the individual after drawing")
+                    req = dict(base, i=0, j=0, tape=[])
+                    want = {"status": "same", "tree": None, "rest": 0, "point": None, "fuzz_args": None}
+                else:
+                    if len(ev.draws) != 2 or any(d[0] is None for d in ev.draws) or len(ev.fuzz_calls) != 1:
+                        raise NotModelled("mutate: unexpected draws")
+                    call = ev.fuzz_calls[0]
+                    if call.cap < 0:
+                        raise NotModelled("open repetitions with different caps")
+                    req = dict(base, i=ev.draws[0][0], j=ev.draws[1][0], tape=call.tape, grammar=dict(fg, cap=call.cap))
+                    want = {"status": "ok", "tree": ev.out, "rest": 0, "fuzz_args": [call.start, call.path, call.budget]}
+                run.count("mutate:" + want["status"])
+
+                def on_mut(a, want=want, req=req):
+                    got = {k: a[k] for k in want}
+                    ctx.corr("evo:mutate", got == want, {"spec": spec, "req": {k: v for k, v in req.items() if k != "grammar"},
+                                                         "impl": want, "model": a})
+                ctx.ask_later(req, on_mut)
+                ctx.corr("evo:mutate_mutates_input", ev.inputs_after == [ev.tree], {"spec": spec})
+            else:
+                keys = fio._TermKeys()
+                sj = None if ev.suggestion is None else fio.sugg_json(ev.sugg_pre, ev, rec.table_for(g), keys)
+                fuel = 2000 + 4 * _asize(ev.tree)
+                req = {"op": "fix", "grammar": dict(fg, cap=ev.cap), "tree": ev.tree, "sugg": sj, "tape": ev.tape,
+                       "fuel": fuel}
+                want = {"status": "ok", "tree": ev.out[0], "fixes": ev.out[1], "rest": 0}
+                kinds = _sugg_kinds(sj)
+                for kd in kinds:
+                    run.count("fix_leaf:" + kd)
+                run.count("fix:" + ("no_replacements" if ev.out[1] == 0 else "replacements"))
+
+                def on_fix(a, want=want, req=req):
+                    got = {k: a[k] for k in want}
+                    ctx.corr("evo:fix_individual", got == want,
+                             {"spec": spec, "req": {k: v for k, v in req.items() if k != "grammar"}, "impl": want, "model": a})
+                ctx.ask_later(req, on_fix)
+                ctx.corr("evo:fix_mutates_input", ev.inputs_after == [ev.tree], {"spec": spec})
+        except NotModelled as e:
+            run.count(f"evo_not_modelled:{op}:{str(e)[:40]}")
+    rec.evo_calls.clear()
+
+
+def _sugg_kinds(sj) -> set:
+    if sj is None:
+        return {"none"}
+    if sj[0] in ("all", "first"):
+        out = {sj[0]}
+        for s in sj[1]:
+            out |= _sugg_kinds(s)
+        return out
+    if sj[0] == "rep":
+        return {"rep:insert" if sj[5] > sj[4] else "rep:full_delete" if sj[5] == 0 and sj[8] else
+                "rep:noop" if (sj[5] or 1) == sj[4] else "rep:delete"}
+    if sj[0] == "given":
+        return {"given:" + ("pairs" if sj[1] else "empty")}
+    return {sj[0]}
 
 
 def stage_evolution(ctx: Ctx, rng, n_runs: int, seconds: int, force: Optional[str] = None) -> None:
@@ -830,8 +1223,11 @@ def stage_evolution(ctx: Ctx, rng, n_runs: int, seconds: int, force: Optional[st
             continue
         ctx.queue_valid(gj, regexes, tj_sol, dict(meta, origin="evolution:solution"), at_sol)
         ctx.queue_valid(gj, regexes, tj_ind, dict(meta, origin="evolution:individual"), at_ind)
+        record_evo(ctx, rec, spec)
         record_calls(ctx, rec, spec, "evolution:Grammar.fuzz", {})
     ctx.flush_expand()
+    ctx.flush_bound()
+    ctx.flush_ops()
     ctx.flush_valid()
 
 
@@ -901,7 +1297,7 @@ def stage_shipped(ctx: Ctx, rng, per_file_seconds: int, deadline: float) -> None
                     run.count("shipped:fuzz_timeout")
                 except BaseException as e:  # noqa
                     run.count("shipped:fuzz_raised:" + type(e).__name__)
-            record_calls(ctx, rec, rel, "shipped:Grammar.fuzz", fg_cache)
+            record_calls(ctx, rec, rel, "shipped:Grammar.fuzz", fg_cache, fresh=False)
         # a short evolution run with the spec's own constraints (protocol specs: IO mode is C19/C20's business)
         from fandango.evolution.algorithm import Fandango
         from fandango.evolution.evaluation import Evaluator
@@ -945,6 +1341,7 @@ def stage_shipped(ctx: Ctx, rng, per_file_seconds: int, deadline: float) -> None
                 run.count("shipped:not_modelled:" + str(e)[:30])
         ctx.queue_valid(gj, regexes, tjs, {"origin": "shipped", "spec": rel, "relaxed": sorted(relaxed)}, ats)
     ctx.flush_expand()
+    ctx.flush_bound()
     ctx.flush_valid()
 
 
@@ -984,6 +1381,7 @@ def stage_corpus(ctx: Ctx, rng) -> None:
         ctx.queue_valid(gj, regexes, [gio.tree_to_json(t) for t in trees],
                         {"origin": "fuzz", "spec": spec, "relaxed": sorted(relaxed)})
     ctx.flush_expand()
+    ctx.flush_bound()
     ctx.flush_valid()
 
 
@@ -1077,6 +1475,8 @@ def main(tier: str) -> int:
     quick = tier == "quick"
     t0 = time.time()
     stage_corpus(ctx, run.rng("corpus"))
+    stage_prime(ctx, run.rng("prime"), 40 if quick else 900)
+    run.coverage["t_prime_s"] = round(time.time() - t0, 1)
     stage_fuzz(ctx, run.rng("fuzz"), 60 if quick else 900, 8 if quick else 12)
     run.coverage["t_fuzz_s"] = round(time.time() - t0, 1)
     stage_ops(ctx, run.rng("ops"), 35 if quick else 500, 3 if quick else 4)
